@@ -364,9 +364,18 @@ impl Monitor for C12 {
             let fidx = fi as usize;
             fi += step;
             let orig = img.files[fname].clone();
-            for kind in 0..5 {
+            for kind in 0..6 {
                 let mut d = orig.clone();
                 let what = match kind {
+                    5 => {
+                        // the frame (and whatever follows it in its block) replaced by a gap-free
+                        // chain of empty Middle frames: no checksum-verifying reader accepts them
+                        if f.off % BLOCK != 0 && !rng.chance(1, 4) {
+                            continue;
+                        }
+                        crate::damage::empty_frame_chain_to_block_end(&mut d, f.off, 3, &mut rng);
+                        "replaced-by-empty-frame-chain"
+                    }
                     0 if f.len > 0 => {
                         let o = f.payload_off() + rng.usize(0, f.len - 1);
                         d[o] ^= 1 << rng.below(8);
